@@ -92,14 +92,14 @@ ClauseCheckMB(e) ==
         want == IF failing = {} THEN "ok" ELSE "fail"
     IN  IF e.outcome # want
         THEN "check_mass_balance(" \o e.tol \o "): reported " \o e.outcome \o ", the contract says " \o want \o " {C02}"
-        ELSE IF want = "fail" /\ SeqSet(e.failing) # {M.procs[p] : p \in failing}
+        ELSE IF want = "fail" /\ e.failing # <<"?">> /\ SeqSet(e.failing) # {M.procs[p] : p \in failing}
              THEN "check_mass_balance(" \o e.tol \o "): the processes named as failing are not exactly those out of balance {C02}"
              ELSE ""
 ClauseCheckFlows(e) ==
     LET flagged == Flagged(M, st, SeqSet(e.exc))
         want == IF flagged = {} THEN "ok" ELSE "fail"
     IN  IF e.outcome # want THEN "check_flows: reported " \o e.outcome \o ", the contract says " \o want \o " {C02}"
-        ELSE IF ~e.raise /\ SeqSet(e.flagged) # {M.flows[f].name : f \in flagged}
+        ELSE IF ~e.raise /\ e.flagged # <<"?">> /\ SeqSet(e.flagged) # {M.flows[f].name : f \in flagged}
              THEN "check_flows: the flagged flows are not exactly the non-excepted flows with NaN or a negative entry {C02}"
              ELSE ""
 
